@@ -168,6 +168,7 @@ def _load_world():
 
 def forget_worlds():
     _worlds.clear()
+    _STARTED[0] = 0
 
 
 class World:
@@ -269,6 +270,7 @@ _thread_events = {}
 _thread_ledger = []
 _ATEXIT_DONE = {}
 _CHATTER = {}
+_STARTED = [0]
 
 
 def _stream(name):
@@ -872,6 +874,13 @@ def _setUp(self):
              if ORIG_STDOUT is not None else None)
     world.point('test.setUp:' + tid)
     self.addCleanup(_cleanup, self)
+    if os.environ.get('ZTR_CHDIR_TESTS'):
+        # ZTR_CHDIR_TESTS=<n>: the n-th test that starts in a process works
+        # in a scratch directory and does not go back
+        _STARTED[0] += 1
+        if _STARTED[0] == int(os.environ['ZTR_CHDIR_TESTS']):
+            run_actions([{'ph': 'setUp', 'do': 'chdir',
+                          'path': 'work-%d' % os.getpid()}], 'setUp', tid)
     run_actions(ts.get('actions'), 'setUp', tid)
     if kind == 'skip_setup':
         self.skipTest('skipped in setUp')
